@@ -19,8 +19,9 @@ MANIFEST = dict(
          "predicate wfMsg accepts (layout of the four sections, every pointer designates a label boundary of a stored name in no "
          "later section, every name resolves within the caps): pointers_preserved (update_records re-targets exactly the pointers "
          "whose target moves; every question / owner / data name resolves to the same labels and is read as the same text after ANY "
-         "insertion), sections_refine_wf, reparse_sections_compressed; compose_name sound and complete for RFC 1035 resolutions "
-         "within the caps; pointer loops / out-of-range pointers rejected. Outside wfMsg two witnesses of silently changed names on "
+         "insertion), sections_refine_wf, reparse_sections_compressed, and sections_refine_compressed_holds for the Lean reference "
+         "compressor (suffix-table invariant, refCompress_wf); compose_name sound and complete for RFC 1035 resolutions "
+         "within the caps; pointer loops / out-of-range pointers rejected by every getter (getters_reject_unresolvable). Outside wfMsg two witnesses of silently changed names on "
          "accepted messages (KF-C10-12 forward pointer into a later section, KF-C10-13 pointer into opaque record data). Tied to the "
          "code by differential correspondence on random and exhaustive edit histories over fresh, reference-encoded (with and "
          "without compression), hand-assembled compressed (pointer targets at / next to every section offset and 12 octets off, "
@@ -30,8 +31,9 @@ MANIFEST = dict(
     note="Trusted: Lean kernel + standard axioms; hand-written model tied by correspondence (harness/c10_dns.cpp); "
          "inet_pton/inet_ntop are external (the generator supplies inet_pton's result, AAAA text is compared as the "
          "address it parses to); the Python reference encoder and the hand assembler (class Raw) in checks/C10.py; generator "
-         "coverage bounds what the tie sees. The Lean reference compressor refCompress is not proved to produce well-formed "
-         "messages in general (checked per message by the oracle and on an instance by the kernel).",
+         "coverage bounds what the tie sees. (The Lean reference compressor refCompress is proved to produce accepted, "
+         "well-formed messages that are read back as the content: refCompress_wf; the Python encoder is checked per message by the "
+         "oracle's wfMsg.)",
     technique="Lean 4 proof (layout relation + pointer-target invariant + transport of layout / names / views under the "
               "insertion, refinement over edit histories, fault-explicit safety) + model/impl correspondence + spec oracle",
     design="DESIGN.md §6 C10")
@@ -944,13 +946,6 @@ def run(chk):
 
 
 MODELLED_NOT_PROVED = [
-    "sections_refine_compressed in its refCompress form (Props.C10.sections_refine_compressed, a def): proved for every content "
-    "whose compressed reference encoding is accepted, accepted by wfMsg and read back as the content "
-    "(sections_refine_compressed_partial: three decidable facts about the INITIAL message only, evaluated by the kernel on an "
-    "instance and by the oracle on every generated reference encoding); NOT proved: that the Lean reference compressor "
-    "refCompress produces such a message for all contents (suffix-table invariant). Everything about insertions, pointer "
-    "rewriting, getters and re-parse is proved for ALL stored messages that wfMsg accepts (pointers_preserved, sections_refine_wf, "
-    "reparse_sections_compressed)",
     "stored messages that wfMsg rejects: memory safety, insertion_is_shift and pointers_preserved_partial hold for any stored "
     "bytes; names can change silently when a pointer designates a later section (KF-C10-12) or does not designate a label "
     "boundary of a name update_records knows, e.g. points into SRV data (KF-C10-13): names_preserved_all is refuted by a witness",
